@@ -553,8 +553,14 @@ pub fn gen_hist<W: Write>(prop: &str, r: &mut Rng, thorough: bool, out: &mut W) 
                 let ns = 2 + r.below(4);
                 let names: Vec<String> = (0..ns).map(|i| format!("s{i}")).collect();
                 let mut rows: Vec<String> = Vec::new();
+                let mut seen_keys: Vec<u128> = Vec::new();
                 for _ in 0..(2 + r.below(8)) {
                     let arms = canonical_arms(r, k, rc);
+                    // a table has one row per key
+                    if seen_keys.contains(&pack(&arms)) {
+                        continue;
+                    }
+                    seen_keys.push(pack(&arms));
                     let mut cells: Vec<u8> = (0..ns).map(|_| match r.below(5) {
                         0 => b'-',
                         1 | 2 => *r.pick(&AMBIG),
@@ -1154,8 +1160,8 @@ fn gen_lo<W: Write>(snps: bool, r: &mut Rng, thorough: bool, out: &mut W) {
                 seqs.push(s(&sq));
             }
             writeln!(out, "lo_mid k={k} seqs={}", seqs.join(",")).unwrap();
-            // de-replication: groups over a small pool of k-mers and their reverse complements,
-            // no two with the same (total length, entry) -- their order is a hash-map order in the Rust
+            // de-replication: groups over a small pool of k-mers and their reverse complements
+            // (distinct keys; equal lengths and shared entry k-mers are frequent)
             let kg = 2 + r.below(30);
             let maskv: u128 = (1u128 << (2 * kg)) - 1;
             let mut pool: Vec<u128> = Vec::new();
@@ -1169,8 +1175,8 @@ fn gen_lo<W: Write>(snps: bool, r: &mut Rng, thorough: bool, out: &mut W) {
             for _ in 0..ng {
                 let e = *r.pick(&pool);
                 let x = *r.pick(&pool);
-                let l = 2 * kg + 1 + r.below(4);
-                if groups.iter().any(|g| g.0 == e && (g.2 == l || g.1 == x)) {
+                let l = 2 * kg + 1 + r.below(3);
+                if groups.iter().any(|g| g.0 == e && g.1 == x) {
                     continue;
                 }
                 groups.push((e, x, l));
